@@ -302,6 +302,148 @@ Section Machine.
   End Run.
 End Machine.
 
+(* ---- the target filter (FINAL_OUTPUT xpath) ------------------------------------------------------ *)
+(* hierarchyReader.go:223-236 / edi/reader.go:150-163 in full: a completed target instance becomes
+   r.target only if `r.targetXPathExpr == nil || idr.MatchAny(cur.recNode, r.targetXPathExpr)`;
+   otherwise the node is released and cur.recNode = nil.  Everything else in recDone -- occurred++,
+   the max test, recNext -- does not look at the outcome.  [keep] is the filter as a predicate on
+   the completed instance; the machines above (rec_done, hstep, edi_step) are the case without a
+   filter, i.e. keep = fun _ => true (Proofs/HierFilter.v: nofilter_hstep, nofilter_edi_step).
+   As for a delivered target, unlinking the released node from its parent is not modelled. *)
+Section Filter.
+  Variable keep : inst -> bool.
+
+  Fixpoint rec_done_f (cur : entry) (below : list entry) (tgt : option inst) : rres :=
+    let d := e_decl cur in
+    let tg :=
+      if d_tgt d then
+        match tgt with
+        | Some _ => inl P_TARGET_SET
+        | None => match e_node cur with
+                  | None => inl P_NODE_NIL
+                  | Some n => if keep n then inr (Some n, e_node cur) else inr (None, None)
+                  end
+        end
+      else inr (tgt, e_node cur) in
+    match tg with
+    | inl site => RPanic site
+    | inr (tgt1, node1) =>
+      let cur1 := E d node1 0 (S (e_occ cur)) in
+      match below with
+      | [] => ROk [cur1] tgt1
+      | p :: b =>
+          let p0 := commit p (e_node cur) in
+          if lt_max (e_occ cur1) (d_max d) then ROk (cur1 :: p0 :: b) tgt1
+          else if e_occ cur1 <? d_min d then ROk (cur1 :: p0 :: b) tgt1
+          else
+            if S (e_cur p0) <? length (d_kids (e_decl p0)) then
+              match nth_error (d_kids (e_decl p0)) (S (e_cur p0)) with
+              | Some k => ROk (E k None 0 0 :: E (e_decl p0) (e_node p0) (S (e_cur p0)) (e_occ p0) :: b) tgt1
+              | None => RPanic P_INDEX
+              end
+            else rec_done_f p0 b tgt1
+      end
+    end.
+
+  Definition rec_next_f (stk : list entry) (tgt : option inst) : rres :=
+    match stk with
+    | [] => RPanic P_STACKTOP
+    | cur :: below =>
+        if e_occ cur <? d_min (e_decl cur) then RErr (TErrMin (d_name (e_decl cur)) (e_occ cur))
+        else match below with
+             | [] => ROk stk tgt
+             | p :: b =>
+                 if S (e_cur p) <? length (d_kids (e_decl p)) then
+                   match nth_error (d_kids (e_decl p)) (S (e_cur p)) with
+                   | Some k => ROk (E k None 0 0 :: E (e_decl p) (e_node p) (S (e_cur p)) (e_occ p) :: b) tgt
+                   | None => RPanic P_INDEX
+                   end
+                 else rec_done_f p b tgt
+             end
+    end.
+
+  Section MachineF.
+    Variable try_leaf : leaf -> list unt -> option nat.
+
+    Definition instantiate_f (cur : entry) (below : list entry) (tgt : option inst)
+               (n : nat) (us : list unt) (root_ok : bool) (st : mstate) : sres :=
+      let d := e_decl cur in
+      if length us <? n then Ret (OTerm (TPanic P_LINES)) st
+      else
+        let node := I (d_name d) (map u_id (firstn n us)) [] in
+        let rest := skipn n us in
+        let cur1 := E d (Some node) (e_cur cur) (e_occ cur) in
+        match below with
+        | [] =>
+            if root_ok then
+              match d_kids d with
+              | k :: _ => Cont (M [E k None 0 0; cur1] tgt rest)
+              | [] => of_rres (rec_done_f cur1 [] tgt) rest st
+              end
+            else Ret (OTerm (TPanic P_STACKTOP)) st
+        | p :: _ =>
+            match e_node p with
+            | None => Ret (OTerm (TPanic P_PARENT_NIL)) st
+            | Some _ =>
+                match d_kids d with
+                | k :: _ => Cont (M (E k None 0 0 :: cur1 :: below) tgt rest)
+                | [] => of_rres (rec_done_f cur1 below tgt) rest st
+                end
+            end
+        end.
+
+    Definition hstep_f (st : mstate) : sres :=
+      match m_tgt st with
+      | Some t => Ret (ODeliver t) st
+      | None =>
+          match m_rest st with
+          | [] =>
+              if length (m_stk st) <=? 1 then Ret (OTerm TEof) st
+              else of_rres (rec_next_f (m_stk st) None) [] st
+          | _ :: _ =>
+              if length (m_stk st) <=? 1 then Ret (OTerm TErrUnexpected) st
+              else match m_stk st with
+                   | [] => Ret (OTerm (TPanic P_STACKTOP)) st
+                   | cur :: below =>
+                       match read_rec try_leaf (e_decl cur) (m_rest st) with
+                       | None => of_rres (rec_next_f (m_stk st) None) (m_rest st) st
+                       | Some n => instantiate_f cur below None n (m_rest st) false st
+                       end
+                   end
+          end
+      end.
+
+    Definition edi_step_f (st : mstate) : sres :=
+      match m_tgt st with
+      | Some t => Ret (ODeliver t) st
+      | None =>
+          match m_rest st with
+          | [] =>
+              if length (m_stk st) <=? 1 then Ret (OTerm TEof) st
+              else of_rres (rec_next_f (m_stk st) None) [] st
+          | _ :: _ =>
+              match m_stk st with
+              | [] => Ret (OTerm (TPanic P_STACKTOP)) st
+              | cur :: below =>
+                  match read_rec try_leaf (e_decl cur) (m_rest st) with
+                  | None =>
+                      if length (m_stk st) <=? 1 then Ret (OTerm TErrUnexpected) st
+                      else of_rres (rec_next_f (m_stk st) None) (m_rest st) st
+                  | Some n => instantiate_f cur below None n (m_rest st) true st
+                  end
+              end
+          end
+      end.
+  End MachineF.
+End Filter.
+
+(* the filter of the correspondence cases: `.[not(.//f = 'X')]` -- no unit of the instance, at
+   any depth, is one of the flagged units *)
+Fixpoint inst_ids (i : inst) : list nat :=
+  let 'I _ ids ks := i in ids ++ flat_map inst_ids ks.
+Definition keep_unflagged (rej : list nat) (i : inst) : bool :=
+  forallb (fun id => negb (existsb (Nat.eqb id) rej)) (inst_ids i).
+
 (* rootDecl (flatfile/recdecl.go:32-41) and the EDI root segment group (edi/reader.go:328-336,
    min/max defaults 1/1): a group "#root", not a target, min 1, max 1 *)
 Definition ROOT_NAME := 0.
@@ -394,6 +536,7 @@ Record hcase := mkHCase {
   hc_kind : mkind;
   hc_decls : list decl;
   hc_units : list unt;
+  hc_rej : list nat;        (* ids of the units flagged for the FINAL_OUTPUT filter ([] = no filter) *)
   hc_deliv : list inst;     (* delivered by the implementation, in order *)
   hc_term : oterm;          (* its terminal result *)
   hc_guard : bool;          (* inside the guards of machine_eq_spec / edi_eq_spec_nested *)
@@ -411,6 +554,14 @@ Definition run_kind (k : mkind) (ds : list decl) (us : list unt) : list inst * t
   | KHier => run (hstep flat_leaf) (run_fuel ds us) (init ds us)
   | KFlat => let ds := flat_default_target ds in run (hstep flat_leaf) (run_fuel ds us) (init ds us)
   | KEdi => run (edi_step edi_leaf) (run_fuel ds us) (init ds us)
+  end.
+
+(* the same with the target filter *)
+Definition run_kind_f (keep : inst -> bool) (k : mkind) (ds : list decl) (us : list unt) : list inst * term :=
+  match k with
+  | KHier => run (hstep_f keep flat_leaf) (run_fuel ds us) (init ds us)
+  | KFlat => let ds := flat_default_target ds in run (hstep_f keep flat_leaf) (run_fuel ds us) (init ds us)
+  | KEdi => run (edi_step_f keep edi_leaf) (run_fuel ds us) (init ds us)
   end.
 
 Definition valid_kind (k : mkind) (ds : list decl) : bool :=
